@@ -278,6 +278,13 @@ func (tr *Tr) keepImmutableFields(st *State, old map[string]*Term, allocBefore *
 	tr.keepImmutableFieldsExcept(st, old, allocBefore, nil)
 }
 
+// keepStableFields: like keepImmutableFields, but relative to the callee that caused the havoc (fields it cannot store into).
+func (tr *Tr) keepStableFields(st *State, old map[string]*Term, allocBefore *Term, callee *ssa.Function) {
+	tr.stableCallee = callee
+	tr.keepImmutableFieldsExcept(st, old, allocBefore, nil)
+	tr.stableCallee = nil
+}
+
 // initialisedIn: struct types whose fields fn stores into through a pointer it allocated itself (object under construction).
 func initialisedIn(fn *ssa.Function) map[string]bool {
 	out := map[string]bool{}
@@ -311,7 +318,11 @@ func initialisedIn(fn *ssa.Function) map[string]bool {
 
 func (tr *Tr) keepImmutableFieldsExcept(st *State, old map[string]*Term, allocBefore *Term, skip map[string]bool) {
 	f := tr.f
-	for _, n := range tr.relevantStructs() {
+	structs := tr.relevantStructs()
+	if tr.stableCallee != nil {
+		structs = tr.typeFactStructs()
+	}
+	for _, n := range structs {
 		if skip[types.TypeString(n, nil)] {
 			continue
 		}
@@ -320,7 +331,7 @@ func (tr *Tr) keepImmutableFieldsExcept(st *State, old map[string]*Term, allocBe
 		var eqs []*Term
 		var pats [][]*Term
 		var names []string
-		for _, i := range tr.P.immutableFields(n) {
+		for _, i := range tr.stableFieldsFor(n, tr.stableCallee) {
 			off := fieldOffset(stt, i)
 			for j, l := range shape(stt.Field(i).Type()) {
 				k := heapKey(l.S)
@@ -345,7 +356,11 @@ func (tr *Tr) keepImmutableFieldsExcept(st *State, old map[string]*Term, allocBe
 		cond := f.And(f.ULt(r, allocBefore), f.Eq(tr.rtype(r), f.BVu(64, typeTag(n))))
 		tr.assume(f.Forall([]*Term{r}, f.Implies(cond, f.And(eqs...)), pats...),
 			"fields of "+n.Obj().Name()+" never assigned after construction keep their value across an unknown call: "+strings.Join(names, ", "))
-		tr.note("immutable-after-construction fields of " + types.TypeString(n, nil) + " (no store outside the allocating function, address never escapes; unsafe/reflect not analysed): " + strings.Join(names, ", "))
+		if tr.stableCallee != nil {
+			tr.note("fields of " + types.TypeString(n, nil) + " that a call to " + funcDisplay(tr.stableCallee) + " cannot store into (no store to them in its call graph, address never escapes; unsafe/reflect not analysed) or that are immutable after construction: " + strings.Join(names, ", "))
+		} else {
+			tr.note("immutable-after-construction fields of " + types.TypeString(n, nil) + " (no store outside the allocating function, address never escapes; unsafe/reflect not analysed): " + strings.Join(names, ", "))
+		}
 	}
 }
 
@@ -408,4 +423,227 @@ func (tr *Tr) sliceTypeFacts(elem types.Type, reg *Term) {
 		tr.assumeHere(f.Or(f.Eq(reg, f.BVi(64, 0)), f.Neq(tr.rtype(reg), f.BVu(64, typeTag(n)))),
 			"the backing array of a []"+types.TypeString(elem, nil)+" is not inside an object allocated as "+n.Obj().Name())
 	}
+}
+
+// ---------- callee-relative stability: which struct fields can a call to fn store into (transitively)?
+
+// storeSet: keys (fieldKey) of the fields fn or anything it can call may store into; all=true when unknown code is reached
+// that could store anywhere (a call through an unresolvable function value).
+type storeSet struct {
+	fields map[string]bool
+	all    bool
+}
+
+func (P *Program) mayStoreFields(fn *ssa.Function) *storeSet {
+	P.immutMu.Lock()
+	if P.storeSets == nil {
+		P.storeSets = map[*ssa.Function]*storeSet{}
+	}
+	if ss, ok := P.storeSets[fn]; ok {
+		P.immutMu.Unlock()
+		return ss
+	}
+	P.immutMu.Unlock()
+	P.mayEffect(nil, "devwrite") // builds byMethod / bySig
+	out := &storeSet{fields: map[string]bool{}}
+	seen := map[*ssa.Function]bool{}
+	var markAll func(t types.Type, depth int)
+	markAll = func(t types.Type, depth int) {
+		if depth > 6 {
+			return
+		}
+		switch u := t.Underlying().(type) {
+		case *types.Struct:
+			for i := 0; i < u.NumFields(); i++ {
+				if n, _ := namedStruct(t); n != nil {
+					out.fields[fieldKey(n, i)] = true
+				}
+				markAll(u.Field(i).Type(), depth+1)
+			}
+		case *types.Array:
+			markAll(u.Elem(), depth+1)
+		}
+	}
+	var rec func(f *ssa.Function)
+	rec = func(f *ssa.Function) {
+		if f == nil || seen[f] || out.all {
+			return
+		}
+		seen[f] = true
+		if !P.isRepoFunc(f) {
+			// foreign code stores only through what it is handed (handled at the call site below)
+			return
+		}
+		for _, b := range f.Blocks {
+			for _, in := range b.Instrs {
+				switch x := in.(type) {
+				case *ssa.Store:
+					v := x.Addr
+					for {
+						switch y := v.(type) {
+						case *ssa.FieldAddr:
+							if pt, ok := y.X.Type().Underlying().(*types.Pointer); ok {
+								if n, _ := namedStruct(pt.Elem()); n != nil {
+									out.fields[fieldKey(n, y.Field)] = true
+								}
+							}
+							v = y.X
+							continue
+						case *ssa.IndexAddr:
+							v = y.X
+							continue
+						}
+						break
+					}
+					switch x.Val.Type().Underlying().(type) {
+					case *types.Struct, *types.Array:
+						markAll(x.Val.Type(), 0)
+					}
+				case *ssa.MakeClosure:
+					rec(x.Fn.(*ssa.Function))
+				case ssa.CallInstruction:
+					cc := x.Common()
+					if _, isB := cc.Value.(*ssa.Builtin); isB {
+						continue
+					}
+					if cc.IsInvoke() {
+						if repoIfaceType(cc.Value.Type()) {
+							for _, m := range P.byMethod[cc.Method.Name()] {
+								rec(m)
+							}
+						}
+						// a foreign interface method: stores only through its arguments
+						for _, a := range cc.Args {
+							if pt, ok := a.Type().Underlying().(*types.Pointer); ok {
+								markAll(pt.Elem(), 0)
+							}
+						}
+						continue
+					}
+					sf := cc.StaticCallee()
+					if sf == nil {
+						if tg, ok := P.fieldFuncTargets(cc.Value); ok {
+							for _, m := range tg {
+								rec(m)
+							}
+						} else if sg, ok := cc.Value.Type().Underlying().(*types.Signature); ok {
+							for _, m := range P.bySig[sigKey(sg)] {
+								rec(m)
+							}
+						} else {
+							out.all = true
+						}
+						continue
+					}
+					if P.isRepoFunc(sf) {
+						rec(sf)
+						continue
+					}
+					for _, a := range cc.Args {
+						at := a.Type()
+						if mi, ok := a.(*ssa.MakeInterface); ok {
+							at = mi.X.Type()
+						}
+						if pt, ok := at.Underlying().(*types.Pointer); ok {
+							markAll(pt.Elem(), 0)
+						}
+					}
+				}
+			}
+		}
+	}
+	rec(fn)
+	P.immutMu.Lock()
+	P.storeSets[fn] = out
+	P.immutMu.Unlock()
+	return out
+}
+
+// stableFieldsFor: fields of n that a call to callee (nil: unknown callee) cannot change in objects that existed before.
+func (tr *Tr) stableFieldsFor(n *types.Named, callee *ssa.Function) []int {
+	im := tr.P.immutableFields(n)
+	if callee == nil {
+		return im
+	}
+	ss := tr.P.mayStoreFields(callee)
+	if ss.all {
+		return im
+	}
+	st := n.Underlying().(*types.Struct)
+	isIm := map[int]bool{}
+	for _, i := range im {
+		isIm[i] = true
+	}
+	var out []int
+	for i := 0; i < st.NumFields(); i++ {
+		if isIm[i] || (!ss.fields[fieldKey(n, i)] && !tr.P.fieldAddrEscapes(n, i)) {
+			out = append(out, i)
+		}
+	}
+	return out
+}
+
+// fieldAddrEscapes: is the address of this field (or of part of it) ever taken for anything but loads and stores?
+func (P *Program) fieldAddrEscapes(n *types.Named, idx int) bool {
+	P.immutMu.Lock()
+	defer P.immutMu.Unlock()
+	if P.fieldEsc == nil {
+		P.fieldEsc = map[string]bool{}
+		var ok func(v ssa.Value, depth int) bool
+		ok = func(v ssa.Value, depth int) bool {
+			if depth > 8 {
+				return false
+			}
+			refs := v.Referrers()
+			if refs == nil {
+				return true
+			}
+			for _, r := range *refs {
+				switch x := r.(type) {
+				case *ssa.DebugRef:
+				case *ssa.UnOp:
+					if x.Op != token.MUL {
+						return false
+					}
+				case *ssa.Store:
+					if x.Val == v {
+						return false
+					}
+				case *ssa.FieldAddr:
+					if !ok(x, depth+1) {
+						return false
+					}
+				case *ssa.IndexAddr:
+					if !ok(x, depth+1) {
+						return false
+					}
+				default:
+					return false
+				}
+			}
+			return true
+		}
+		for fn := range P.allRepoFuncs() {
+			for _, b := range fn.Blocks {
+				for _, in := range b.Instrs {
+					fa, isFA := in.(*ssa.FieldAddr)
+					if !isFA {
+						continue
+					}
+					pt, isP := fa.X.Type().Underlying().(*types.Pointer)
+					if !isP {
+						continue
+					}
+					nn, _ := namedStruct(pt.Elem())
+					if nn == nil {
+						continue
+					}
+					if !ok(fa, 0) {
+						P.fieldEsc[fieldKey(nn, fa.Field)] = true
+					}
+				}
+			}
+		}
+	}
+	return P.fieldEsc[fieldKey(n, idx)]
 }
